@@ -214,7 +214,39 @@ func ruleRender(r *Run) {
 			ow.Fail(r.pos(fn.Pos()), "a collection loop can be left early")
 		}
 		// every stream's values are visited: no way round the inner loop within one outer iteration
-		if outer.Blocks[inner.Header] && !mustPassThrough(outer.Body, outer.Header, inner.Header) {
+		if outer.Blocks[inner.Header] && !mustPassThroughUnless(outer.Body, outer.Header, inner.Header, func(from, to *ssa.BasicBlock) bool {
+			// a way round that is taken only when the stream has no values skips nothing
+			ef, ok := edgeFact(from, to)
+			if !ok {
+				return false
+			}
+			ef = normFact(ef)
+			b, ok := ef.Cond.(*ssa.BinOp)
+			if !ok {
+				return false
+			}
+			lc, ok := b.X.(*ssa.Call)
+			if !ok {
+				return false
+			}
+			if bi, ok := lc.Call.Value.(*ssa.Builtin); !ok || bi.Name() != "len" {
+				return false
+			}
+			if lc.Call.Args[0] != inner.X && describe(lc.Call.Args[0], 0) != describe(inner.X, 0) {
+				return false
+			}
+			k, ok := constInt(b.Y)
+			if !ok {
+				return false
+			}
+			switch {
+			case b.Op == token.EQL && k == 0 && ef.Truth, b.Op == token.NEQ && k == 0 && !ef.Truth,
+				b.Op == token.LSS && k == 1 && ef.Truth, b.Op == token.GTR && k == 0 && !ef.Truth,
+				b.Op == token.LEQ && k == 0 && ef.Truth, b.Op == token.GEQ && k == 1 && !ef.Truth:
+				return true
+			}
+			return false
+		}) {
 			bad = true
 			ow.Fail(r.pos(termPos(outer.Body)), "an iteration over the streams can go on to the next stream without visiting this stream's values: its entries are never printed")
 		}
